@@ -874,7 +874,11 @@ func RunConc(c *core.Ctx) {
 	c.Count(fmt.Sprintf("max_concurrency_%d", maxConc), 1)
 
 	// linearizability
-	res, info := porcupine.CheckOperationsVerbose(concModel, cr.ops, 60*time.Second)
+	budget := 12 * time.Second // a time-out is "inconclusive", never a verdict; the quick tier does not wait a minute for one history
+	if c.Thorough() {
+		budget = 60 * time.Second
+	}
+	res, info := porcupine.CheckOperationsVerbose(concModel, cr.ops, budget)
 	c.Eval(len(cr.ops))
 	switch res {
 	case porcupine.Ok:
